@@ -307,6 +307,15 @@ class SoftwareSwitchBase (object):
       self.send_error(type=OFPET_FLOW_MOD_FAILED, code=OFPFMFC_BAD_COMMAND,
                       ofp=ofp, connection=connection)
       return
+    if ofp.command in (OFPFC_ADD, OFPFC_MODIFY, OFPFC_MODIFY_STRICT):
+      # Don't install actions we won't be able to carry out
+      for action in ofp.actions:
+        if action.type not in self.action_handlers:
+          self.log.warn("Flow mod with unknown action type: %x",
+                        action.type)
+          self.send_error(type=OFPET_BAD_ACTION, code=OFPBAC_BAD_TYPE,
+                          ofp=ofp, connection=connection)
+          return
     r = handler(flow_mod=ofp, connection=connection, table=self.table)
     if r is False:
       # Refused (and answered with an error): leave the buffer alone too
